@@ -208,6 +208,9 @@ impl<'a> Gen<'a> {
             }
             if self.o.wide && self.rng.chance(1, 10) {
                 out.push(*self.rng.pick(&WIDE));
+                if self.o.combining && self.rng.chance(1, 3) {
+                    out.push(*self.rng.pick(&['\u{301}', '\u{308}']));
+                }
             }
         }
         out
